@@ -138,6 +138,7 @@ func ruleC10(p *Prog, r *Res) {
 	r.Floor(ruleB+" uses", 12, nbu)
 	if f := p.Fn("manager.Manager.getIndexesCopy"); f != nil {
 		oc := newOwnCtx(p)
+		oc.strict = true
 		inspectShallow(f.Body(), func(x ast.Node) bool {
 			if rs, ok := x.(*ast.ReturnStmt); ok && len(rs.Results) >= 1 {
 				okO, why := oc.owned(f, rs.Results[0])
